@@ -487,11 +487,29 @@ theorem parseQuotedString_quoteString (s : Str) : parseQuotedString (quoteString
   simp only [List.reverse_reverse]
   rw [← hb, unquoteBody_escape]; rfl
 
-/-- two qualified no-cache directives: the directive map afterwards names the fields of BOTH lists -/
+/-! ### lists of field names (Vary, the argument of a qualified no-cache): split at EVERY comma -/
+
+theorem splitOnComma_comma (a b cur : Str) :
+    splitOnComma (a ++ ',' :: b) cur = splitOnComma a cur ++ splitOnComma b [] := by
+  induction a generalizing cur with
+  | nil => simp [splitOnComma]
+  | cons c a ih =>
+    by_cases hc : c = ','
+    · subst hc; simp [splitOnComma, ih]
+    · have h1 : ∀ r cur, splitOnComma (c :: r) cur = splitOnComma r (c :: cur) := by
+        intro r cur; rw [splitOnComma]; exact fun h => absurd h hc
+      simp [h1, ih]
+
+/-- the names of `a , b` are the names of `a` followed by the names of `b`, whatever bytes they hold -/
+theorem fieldNames_comma (a b : Str) : fieldNames (a ++ ',' :: b) = fieldNames a ++ fieldNames b := by
+  simp [fieldNames, splitOnComma_comma]
+
+/-- two qualified no-cache directives: the directive map afterwards names the fields of BOTH lists — exactly the
+    names of the first list followed by the names of the second, whatever bytes (quotes, backslashes) either holds -/
 theorem two_qualified_lists (m : Directives) (prev v : Str) (hp : alookup sNoCache m = some prev)
     (hq1 : (parseQuotedString prev).isEmpty = false) (hq2 : (parseQuotedString v).isEmpty = false) :
     (directiveInsert m sNoCache v).respNoCache =
-      some (some (trimmedCSV (parseQuotedString prev ++ [','] ++ parseQuotedString v))) := by
+      some (some (fieldNames (parseQuotedString prev) ++ fieldNames (parseQuotedString v))) := by
   unfold directiveInsert Directives.respNoCache
   simp only [hp, ↓reduceIte, hq1, hq2, Bool.false_eq_true]
   have : alookup (str% "no-cache") (ainsert sNoCache (quoteString (parseQuotedString prev ++ [','] ++ parseQuotedString v)) m) =
@@ -503,6 +521,6 @@ theorem two_qualified_lists (m : Directives) (prev v : Str) (hp : alookup sNoCac
     cases hx : parseQuotedString prev with
     | nil => rw [hx] at hq1; cases hq1
     | cons a b => rfl
-  simp
+  simp [fieldNames_comma]
 
 end Httpcache
